@@ -5,7 +5,8 @@ from vcheck import Case, hx, tokf, parse_vals
 PID = "C14"
 MODEL_DEPS = ["C13_Model.v"]
 RULE = ("non-trivial = a call on an anisotropic offset region (widths differing by > 10x or a lower corner away from the origin) in >= 2 dimensions, "
-        "or an observed call preceded by >= 2 calls of different dimension, or by a history that contains an integration brought to an end by its integrand; distinct by case text")
+        "or an observed call preceded by >= 2 calls of different dimension, or by a history that contains an integration brought to an end by its integrand, "
+        "or an observed call made at least twice from inside the integrand of an integration under way; distinct by case text")
 LEVEL_TEXT = ("Theorems (Coq, all inputs, over the reals, for every uniform stream with values in [0,1)): Random_Point stays in the hyper-rectangle; plain Monte Carlo and Miser "
               "evaluate the integrand only at points of the region (Miser's sub-regions are nested) and integrate a constant c to exactly V*c; the result of every integrator is a "
               "function of (arguments, stream) only: Miser's counter iran starts at 0 in every top-level call and plain MC has no state, and with init = 0 (the only value Integrate_MC "
@@ -18,19 +19,29 @@ LEVEL_TEXT = ("Theorems (Coq, all inputs, over the reals, for every uniform stre
               "histories are replayed on both sides. Histories may contain integrations that their integrand brings to an end early (a C++ exception thrown from the n-th evaluation, caught by "
               "the caller): the model function integrate_mc_throwing gives the statics such a call leaves behind; theorems: every call of a history, ended early or not, leaves well-formed statics "
               "(C14_history_leaves_wf_statics), so the observed call after any history returns what it returns in a fresh process (C14_observed_call_forgets_history). On the implementation every "
-              "observed call of a history case is run three times: in a process forked from an image that has never called the library (fresh statics), in the worker before the history and after it.")
+              "observed call of a history case is run three times: in a process forked from an image that has never called the library (fresh statics), in the worker before the history and after it. "
+              "In the model a region is a value: no call changes the vector of its caller. On the implementation the harness hands several calls of a case the very same std::vector object (a caller "
+              "that builds its box once), compares that object with what the caller put into it at every evaluation of the integrand and after every call (run to its end or not), and runs the observed "
+              "call from inside the integrand of an integration under way (on a box of its own or on the outer call's vector object), comparing each of its values with the fresh-process value. "
+              "Cases cover descending limits on any subset of axes, boxes up to 1e9 widths away from the origin, every coincidence of a limit of one axis with a limit of another axis in the three front ends, "
+              "and the default arguments of Integrate_MC.")
 LEVEL_NOTE = ("Coq 8.16.1 kernel; theorems over R use the standard library's real-number axioms (listed in the evidence); std::mt19937 + uniform_real_distribution are modelled as an abstract "
               "stream us : Z -> R with 0 <= us k < 1 (the OCaml driver reimplements MT19937/generate_canonical and is compared with the library's generator on every run); Vegas' work arrays "
               "that are written before being read (d, kg, ia, x, dt, r, xin) are created afresh in the model at the size in use, a read outside that part being the outcome OOB (this is also what the "
               "model of a call brought to an end by its integrand relies on: of the iteration under way only such statics have been touched; histories with such calls test it); di (print-only) "
-              "and Miser's var (does not influence the result) are not modelled; hook: verif::mc_seed (LIBPHYSICA_VERIF)")
+              "and Miser's var (does not influence the result) are not modelled; an integration started from the integrand of a Vegas integration under way is itself never Vegas (Vegas keeps its loop "
+              "counters in function-local statics 'allowing restarts': the outer call would never come to an end; the property's histories are sequences of calls); hook: verif::mc_seed (LIBPHYSICA_VERIF)")
 TOL = (1e-11, 1e-300)
 TRUSTED = ["std::mt19937 / std::uniform_real_distribution<double>(0,1) (libstdc++ generate_canonical): modelled as an abstract stream; reimplemented in ocaml/C14_driver.ml and compared with the library's draws (op stream)",
            "the seed hook libphysica::verif::mc_seed_set / mc_seed in Integration.cpp (compiled with -DLIBPHYSICA_VERIF)",
            "harness/C14.cpp runs every case in a process forked from an image that has not yet called the library (function-local statics as in a fresh process), and the "
-           "fresh-process value of a history case in a further one; an integration is brought to an end by a C++ exception thrown from the harness' integrand and caught by the harness"]
+           "fresh-process value of a history case in a further one; an integration is brought to an end by a C++ exception thrown from the harness' integrand and caught by the harness",
+           "harness/C14.cpp keeps the region vector objects of a case (call suffix @k) and compares them bit for bit with the limits written in the case"]
 ASSUMPTIONS = ["the six-standard-error clause is decided on the implementation with fixed seeds against closed-form integrals, using the analytic standard error of plain Monte Carlo with the same budget, V*sqrt(Var f/ncall), as the yardstick for all three methods (Vegas and Miser are variance-reduction schemes)",
                "exactness on constants is decided on the implementation with slack 2*(ncall+100)*2^-53 relative (one rounding per accumulated term)",
+               "'other integrations run before it' includes integrations that are under way when the observed call is made (the observed call is made from their integrand), except Vegas inside Vegas",
+               "a region vector whose limits descend on some axes is a valid region (oriented integral: one factor -1 per such axis); no axis has zero width (widths 1e-3..1e3)",
+               "the spherical front end is judged against closed-form integrals of r^2 (c0 + c1 z + c2 |v|^2 + c3 x^2) over boxes in (r, cos theta, phi), with slack 1e-14 on norm and z/norm of the vectors handed over",
                "a history may contain integrations that do not run to their end because their integrand throws (the property's 'integrations run before it' read as calls of Integrate_MC made before it); "
                "the model of such a call (integrate_mc_throwing) carries the statics of the iterations completed before the exception and is compared with the library through the calls that follow it"]
 
@@ -507,25 +518,6 @@ def split_throw(method):
     return m, (int(n) if n else 0)
 
 
-def split_calls(tokens):
-    """the token lists of the calls that follow one another in a hist / nested line"""
-    calls = []; k = 0
-    while k < len(tokens):
-        d = int(tokens[k + 3]); j = k + 4 + 2 * d
-        # the prefix expression: count operands
-        need = 1
-        while need:
-            t = tokens[j]; j += 1; need -= 1
-            if t in ("+", "-", "*", "/"): need += 2
-            elif t == "pow": need += 1; j += 1
-            elif t in ("c", "v"): j += 1
-            elif t == "pwl": n = int(tokens[j]); j += 1 + 2 * n; need += 1
-            elif t in ("x", "y", "z", "k"): pass
-            else: need += 1          # unary
-        calls.append(tokens[k:j]); k = j
-    return calls
-
-
 def parse_front(line):
     body, _, ann = line.partition(" # ")
     t = body.split(); op = t[0]; d = 2 if op == "front2d" else 3
@@ -568,7 +560,7 @@ def check_call(op, method, ncall, d, region, fex, fam, v, out, ended_early=False
         if neval > 0:
             if not (rlo * (1 - 1e-14) <= mm[6] and mm[7] <= rhi * (1 + 1e-14)):
                 out.append((f"{op}:points-inside", f"{method}: the norm of the vectors handed to the integrand ranged over [{mm[6]!r},{mm[7]!r}], outside the limits of r [{rlo!r},{rhi!r}]"))
-            if rlo > 0 and not (clo - 1e-14 <= mm[8] and mm[9] <= chi + 1e-14):
+            if not (clo - 1e-14 <= mm[8] and mm[9] <= chi + 1e-14):
                 out.append((f"{op}:points-inside", f"{method}: z / norm of the vectors handed to the integrand ranged over [{mm[8]!r},{mm[9]!r}], outside the limits of cos(theta) [{clo!r},{chi!r}]"))
             if max(abs(x) for x in mm[0:6]) > rhi * (1 + 1e-14):
                 out.append((f"{op}:points-inside", f"{method}: a component of a vector handed to the integrand exceeds the larger radius {rhi!r}"))
@@ -583,7 +575,7 @@ def check_call(op, method, ncall, d, region, fex, fam, v, out, ended_early=False
     if method == "Vegas" and neval > 5 * max(ncall, 2 * 2 ** d):
         # npg = max(ncall / ng^d, 2) points in each of ng^d <= ncall / 2 cells (ng^d = 1 when ncall < 2^(d+1)), five iterations
         out.append((f"{op}:budget", f"{method} evaluated the integrand {neval} times for a budget of {ncall} per iteration (5 iterations)"))
-    if not ended_early and neval == 0 and ncall > 0:
+    if method == "Vegas" and neval == 0 and ncall > 0:
         out.append((f"{op}:budget", f"{method} returned {val!r} without a single evaluation of the integrand (budget {ncall})"))
     if fam is None: return
     txt = fam.text(region)
@@ -616,6 +608,9 @@ def predicates(c, io):
     if op == "mc":
         method, seed, ncall, d, region, fex, fam = parse_mc(c.line)
         method, n = split_throw(method)
+        if method in ("dflt", "dflt2"):        # arguments left out: method = "Vegas", ncalls = 10000
+            ncall = ncall if method == "dflt" else 10000
+            method = "Vegas"
         if method not in MC:
             if not io.startswith("EXIT"): out.append(("mc:unknown-method", f"unknown method {method} was accepted"))
             return out
@@ -630,19 +625,36 @@ def predicates(c, io):
             if n and v[1] >= n: out.append(("mc:exception", f"{method}: the integrand threw from evaluation {n}, but the call returned {v[0]!r} after {v[1]} evaluations"))
             if n and method in ("Monte-Carlo", "Miser") and n <= ncall: out.append(("mc:exception", f"{method}: evaluation {n} of {ncall} was never made"))
             check_call(op, method, ncall, d, region, fex, fam, v, out)
-    elif op in ("front2d", "front3d"):
+        if len(v) >= 5 + 2 * d and (v[3 + 2 * d] or v[4 + 2 * d]):
+            out.append(("mc:caller-region-modified", f"{method}: the region vector of the caller held other limits than the caller's during {int(v[3 + 2 * d])} evaluations of the integrand"
+                        + (" and still does after the call" if v[4 + 2 * d] else "") + ": another integration over this vector (from the integrand, or the next one) is over another region"))
+    elif op in ("front2d", "front3d", "front3s"):
         method, seed, p, d, region, fex, fam = parse_front(c.line)
         if io.startswith("EXIT"): return [(op + ":exit", f"{method} terminated the process on a valid request")]
         check_call(op, method, 30000 if p == 0 else p, d, region, fex, fam, parse_vals(io), out)
     elif op == "hist":
         if io.startswith("EXIT"): return [("hist:exit", "a valid sequence of integrations terminated the process")]
         t = io.split()
-        if len(t) != 4: return [("hist:output", f"malformed harness output {io[:80]!r}")]
-        fresh, a, b, nab = t
+        if len(t) != 5: return [("hist:output", f"malformed harness output {io[:80]!r}")]
+        fresh, a, b, nab, nmod = t
         nh = int(c.line.split()[1])
         what = f"{nh} other integrations" + (f" ({nab} of them brought to an end by an exception from the integrand)" if nab != "0" else "")
+        if "shared-region-object" in c.tags or "@" in c.line: what += ", some of them over the same region vector object of the caller"
         if a != b:
             out.append(("hist:history-dependence", f"same call, same seed: {a} before but {b} after {what}"))
         if fresh != b:
             out.append(("hist:history-dependence:fresh-process", f"same call, same seed: {fresh} in a fresh process but {b} in this process after {what} (and {a} before them, after the earlier cases of this run)"))
+        if nmod != "0":
+            out.append(("hist:caller-region-modified", f"{nmod} of the calls changed the limits in the region vector of their caller (during the call or for good)"))
+    elif op == "nested":
+        if io.startswith("EXIT"): return [("nested:exit", "a valid integration started from the integrand of another one terminated the process")]
+        t = io.split()
+        if len(t) != 6: return [("nested:output", f"malformed harness output {io[:80]!r}")]
+        fresh, outer, ninner, ndiff, worst, nmod = t
+        shared = c.line.split()[1] == "1"
+        where = "from inside the integrand of another integration" + (" over the same region vector object" if shared else "")
+        if ndiff != "0":
+            out.append(("nested:history-dependence", f"same call, same seed: {fresh} in a fresh process but {worst} when made {where} ({ndiff} of {ninner} such calls differ)"))
+        if nmod != "0":
+            out.append(("nested:caller-region-modified", f"{nmod} calls changed the limits in the region vector of their caller (during the call or for good)"))
     return out
